@@ -993,6 +993,7 @@ func streamNested(r *hx.Rng) {
 			nestCase("nested-marshalonly", "m", tag, &nmMarshalOnly{b: b, fail: failing}, b, failing, r)
 		}
 	}
+	runtimeNestedHistories(r.Fork("rthist"))
 	runtimeNested(r)
 }
 
